@@ -119,7 +119,7 @@ func genDataset(t *rapid.T) *dataset {
 	nMetrics := rapid.SampledFrom([]int{1, 1, 1, 2, 2, 3}).Draw(t, "nMetrics")
 	for m := 0; m < nMetrics; m++ {
 		md := metricDef{Name: []string{"cpu", "mem", "disk"}[m]}
-		if rapid.Bool().Draw(t, "twoTagKeys") {
+		if rapid.IntRange(0, 2).Draw(t, "twoTagKeys") > 0 {
 			md.TagKeys = []string{"host", "zone"}
 		} else {
 			md.TagKeys = []string{"host"}
